@@ -232,7 +232,7 @@ def arr_getitem(I, st, base, sl, node=None):
         return a.elem(*full)
     out = Arr(shape, elem, kind=a.kind, etype=a.etype)
     if a.kind == "ndarray" and isinstance(base, Ref):
-        out._view_of = (base.rid, "slice")  # type: ignore[attr-defined]
+        out._view_of = (base.rid, tuple(p[1] if p[0] == "int" else -1 for p in plan))  # type: ignore[attr-defined]
         return out  # basic slicing: a view (immutable value here; writes through views are outside the subset)
     if a.kind in ("list", "tuple"):
         return st.alloc(out, "arr") if a.kind == "list" else out
@@ -688,6 +688,50 @@ def _prime(st, c):
     return t
 
 
+_ARRID = z3.Function("array_identity", z3.IntSort(), z3.IntSort(), z3.IntSort(), z3.IntSort(), z3.IntSort())
+
+
+def arrid(I, st, v):
+    """Value identity of an array argument: (content object, index path) - two arguments with the same identity
+    term denote the same array value.  Used to state 'computed from exactly that slice' for abstract callees."""
+    if isinstance(v, Opt):
+        v = v.val
+    if isinstance(v, Ref) and v.what == "arr":
+        return _ARRID(z3.IntVal(id(st.heap[v.rid]) % (10 ** 9)), z3.IntVal(-2), z3.IntVal(-2), z3.IntVal(-2))
+    if isinstance(v, Arr):
+        vo = getattr(v, "_view_of", None)
+        if vo is not None and vo[0] in st.heap:
+            idx = [to_z3(x) for x in list(vo[1])[:3]]
+            while len(idx) < 3:
+                idx.append(z3.IntVal(-2))
+            return _ARRID(z3.IntVal(id(st.heap[vo[0]]) % (10 ** 9)), *idx)
+        return _ARRID(z3.IntVal(id(v) % (10 ** 9)), z3.IntVal(-2), z3.IntVal(-2), z3.IntVal(-2))
+    raise Unsupported("array identity of " + type(v).__name__)
+
+
+_L1D = z3.Function("loss_1d", ObjS, z3.IntSort(), z3.IntSort(), z3.RealSort())
+_fsum_cache: dict = {}
+
+
+def spec_l1d(I, st, a, k, n):
+    used("spec function l1d(self, sim, real): the abstract single-coordinate loss as a pure function of the loss "
+         "object and the identity of the two array arguments")
+    selfv = a[0]
+    term = selfv.term if isinstance(selfv, Opaque) else _obj_term(st, selfv)
+    return _L1D(term, arrid(I, st, a[1]), arrid(I, st, a[2]))
+
+
+def _obj_term(st, o):
+    cell = st.heap[o.oid]
+    if "$term" not in cell:
+        cell["$term"] = z3.Const(fresh_name("objterm"), ObjS)
+    return cell["$term"]
+
+
+def spec_fsum(I, st, node_args, n_val, st_env_key):
+    raise Unsupported("fsum must be called through the evaluator")
+
+
 def _hint(st, x):
     t = HINT(to_z3(x))
     st.fact(t)   # hint(x) is true by definition
@@ -725,6 +769,7 @@ BUILTIN_FUNCS = {
     "__rng_real": lambda I, st, a, k, n: _RNG_REAL(_z(a[0]), _z(a[1])),
     "default_rng": b_default_rng,
     "ri": spec_ri,
+    "l1d": spec_l1d,
     "upow": lambda I, st, a, k, n: upow(a[0], a[1], st),
     "frac": lambda I, st, a, k, n: to_real(a[0]) - z3.ToReal(z3.ToInt(to_real(a[0]))),
     "prime": lambda I, st, a, k, n: _prime(st, a[0]),
